@@ -65,7 +65,7 @@ class C18(Prop):
     imports = "From Tola Require Import Py.Base Model.Fragment Model.Lookup Model.OverlapResult Corr.C18."
     show_fn = "show"
     design_ref = "6/C18"
-    required_theorems = ['C18_init', 'C18_invariant_all_sequences', 'C18_consistent', 'C18_if_start_removed', 'C18_if_end_removed', 'C18_start_row_bait_overlap', 'C18_end_row_bait_overlap', 'C18_empty_stays_empty', 'C18_hypotheses_satisfiable']
+    required_theorems = ['C18_init', 'C18_invariant_all_sequences', 'C18_consistent', 'C18_if_start_removed', 'C18_if_end_removed', 'C18_start_row_bait_overlap', 'C18_end_row_bait_overlap', 'C18_empty_stays_empty', 'C18_hypotheses_satisfiable', 'C18_pipeline_Inv', 'C18_pipeline_consistent']
 
     def rule(self):
         return (
